@@ -22,6 +22,7 @@ package cluster
 import (
 	"context"
 	"fmt"
+	"reflect"
 	"runtime"
 	"sort"
 	"strconv"
@@ -30,6 +31,7 @@ import (
 	"sync/atomic"
 	"testing"
 	"time"
+	"unsafe"
 
 	clientv3 "go.etcd.io/etcd/client/v3"
 	"pgregory.net/rapid"
@@ -54,11 +56,16 @@ type vfMutexCase struct {
 	// part 1
 	Holder, Contender int
 	ProbeTimeoutUs    int
+	// part 1b: on ONE member (timeout SameTimeoutMs) goroutine A holds for up to 4x that timeout,
+	// B asks meanwhile, C asks as soon as B is back
+	SameMember    int
+	SameTimeoutMs int // 0 = part 1b not run
 }
 
 func (c *vfMutexCase) String() string {
 	var sb strings.Builder
 	fmt.Fprintf(&sb, "part1: holder=m%d contender=m%d contender-timeout=%dus\n", c.Holder, c.Contender, c.ProbeTimeoutUs)
+	fmt.Fprintf(&sb, "part1b: three goroutines on m%d, timeout=%dms, first holds up to 4x timeout\n", c.SameMember, c.SameTimeoutMs)
 	fmt.Fprintf(&sb, "part2: members=%v timeouts(ms)=%v\n", c.Members, c.TimeoutMs)
 	for i, s := range c.Scripts {
 		var ops []string
@@ -70,17 +77,29 @@ func (c *vfMutexCase) String() string {
 	return sb.String()
 }
 
-func vfGenMutexCase(rt *rapid.T, tinyAllowed bool) *vfMutexCase {
+// memberMode: per-object timeouts cannot be set (probe unavailable); member 3 was created with the
+// option cluster-request-timeout=1s and is the only one with a short timeout.
+func vfGenMutexCase(rt *rapid.T, tinyAllowed bool, memberMode bool) *vfMutexCase {
 	c := &vfMutexCase{}
 	nm := rapid.SampledFrom([]int{2, 3, 2, 3, 1}).Draw(rt, "nMembers")
 	perm := rapid.Permutation([]int{0, 1, 2}).Draw(rt, "memberOrder")
 	c.Members = append(c.Members, perm[:nm]...)
 	anyShort := false
-	for range c.Members {
+	for i := range c.Members {
 		to := 0
 		if nm >= 2 && rapid.IntRange(0, 3).Draw(rt, "shortTimeout") == 0 {
 			to = rapid.SampledFrom([]int{60, 120, 250}).Draw(rt, "timeoutMs")
-			anyShort = true
+			if memberMode {
+				if anyShort {
+					to = 0 // only one member has a short timeout in this mode
+				} else {
+					to = 1000
+					c.Members[i] = 3
+				}
+			}
+			if to > 0 {
+				anyShort = true
+			}
 		}
 		c.TimeoutMs = append(c.TimeoutMs, to)
 	}
@@ -102,6 +121,9 @@ func vfGenMutexCase(rt *rapid.T, tinyAllowed bool) *vfMutexCase {
 				op.Ms = rapid.IntRange(1, 3).Draw(rt, "ms")
 			case "long":
 				op.Ms = rapid.SampledFrom([]int{150, 300}).Draw(rt, "longMs")
+				if memberMode {
+					op.Ms = 1500
+				}
 			case "rmw":
 				op.Ms = rapid.IntRange(0, 2).Draw(rt, "rmwMs")
 			}
@@ -117,6 +139,18 @@ func vfGenMutexCase(rt *rapid.T, tinyAllowed bool) *vfMutexCase {
 		c.ProbeTimeoutUs = rapid.SampledFrom([]int{40000, 300, 700, 1500, 3000, 100000, 6000}).Draw(rt, "probeTimeoutUs")
 	} else {
 		c.ProbeTimeoutUs = rapid.SampledFrom([]int{60000, 100000, 200000}).Draw(rt, "probeTimeoutUs")
+	}
+	c.SameMember = rapid.IntRange(0, 2).Draw(rt, "sameMember")
+	c.SameTimeoutMs = rapid.SampledFrom([]int{80, 120}).Draw(rt, "sameTimeoutMs")
+	if memberMode {
+		c.Contender, c.ProbeTimeoutUs = 3, 1000000
+		if c.Holder == 3 {
+			c.Holder = 0
+		}
+		c.SameMember, c.SameTimeoutMs = 3, 1000
+		if rapid.IntRange(0, 3).Draw(rt, "run1b") != 0 {
+			c.SameTimeoutMs = 0
+		}
 	}
 	return c
 }
@@ -139,14 +173,78 @@ func vfLockKeys(raw *clientv3.Client, name string) ([]string, error) {
 	return ks, nil
 }
 
-// vfLocalFree reports whether the goroutine-level lock of a cluster Mutex object is free.
-func vfLocalFree(m Mutex) bool {
-	mm := m.(*mutex)
-	if !mm.lock.TryLock() {
+// ---------------------------------------------------------------------------------------------
+// Run-time probes into whatever implements Mutex. Nothing of the implementation is named at compile
+// time: fields are looked up by reflection, and when a probe is not available the harness says so
+// (class "probe-unavailable:...") and lets the behavioural oracle decide alone.
+
+func vfMutexStruct(m Mutex) (reflect.Value, bool) {
+	v := reflect.ValueOf(m)
+	if v.Kind() != reflect.Ptr || v.IsNil() || v.Elem().Kind() != reflect.Struct {
+		return reflect.Value{}, false
+	}
+	return v.Elem(), true
+}
+
+var vfDurationType = reflect.TypeOf(time.Duration(0))
+
+// vfTimeoutField finds the request-timeout field of a Mutex object: a time.Duration field named
+// like "timeout", else the only time.Duration field.
+func vfTimeoutField(m Mutex) (*time.Duration, bool) {
+	st, ok := vfMutexStruct(m)
+	if !ok {
+		return nil, false
+	}
+	var cands []reflect.Value
+	for i := 0; i < st.NumField(); i++ {
+		f := st.Field(i)
+		if f.Type() != vfDurationType || !f.CanAddr() {
+			continue
+		}
+		if strings.Contains(strings.ToLower(st.Type().Field(i).Name), "timeout") {
+			return (*time.Duration)(unsafe.Pointer(f.UnsafeAddr())), true
+		}
+		cands = append(cands, f)
+	}
+	if len(cands) == 1 {
+		return (*time.Duration)(unsafe.Pointer(cands[0].UnsafeAddr())), true
+	}
+	return nil, false
+}
+
+// vfSetTimeout gives one Mutex object its own request timeout (what the option
+// cluster-request-timeout does for all objects of a member). Only called at quiescent points.
+func vfSetTimeout(m Mutex, d time.Duration) bool {
+	p, ok := vfTimeoutField(m)
+	if !ok {
 		return false
 	}
-	mm.lock.Unlock()
+	*p = d
 	return true
+}
+
+var vfSyncMutexType = reflect.TypeOf(sync.Mutex{})
+
+// vfLocalFree reports whether the goroutine-level guard of a Mutex object is free, when that guard
+// is a sync.Mutex field (TryLock). known=false for any other kind of guard (the meaning of, say, a
+// channel's fill level cannot be known from outside).
+func vfLocalFree(m Mutex) (free bool, known bool) {
+	st, ok := vfMutexStruct(m)
+	if !ok {
+		return false, false
+	}
+	for i := 0; i < st.NumField(); i++ {
+		f := st.Field(i)
+		if f.Type() == vfSyncMutexType && f.CanAddr() {
+			mu := (*sync.Mutex)(unsafe.Pointer(f.UnsafeAddr()))
+			if !mu.TryLock() {
+				return false, true
+			}
+			mu.Unlock()
+			return true, true
+		}
+	}
+	return false, false
 }
 
 // vfTimeoutLike: the acquisition failed because time ran out (client deadline or the etcd server's
@@ -180,15 +278,51 @@ func TestVerifC18Mutex(t *testing.T) {
 	vf := vfBegin(t, "C18")
 	defer vf.End()
 	bed := vfStartBed(t, false)
-	members := []*cluster{bed.primary, bed.vfAddSecondary(t, "vf-sec-a", false), bed.vfAddSecondary(t, "vf-sec-b", false)}
+	members := []Cluster{bed.primary, bed.vfAddSecondary(t, "vf-sec-a", false), bed.vfAddSecondary(t, "vf-sec-b", false)}
 	raw := bed.raw
-	leaseOf := func(i int) string {
-		l, err := members[i].getLease()
-		if err != nil {
-			return "?"
-		}
-		return fmt.Sprintf("%x", int64(l))
+
+	// can a Mutex object be given its own request timeout? (else: a fourth member created with the
+	// exported option cluster-request-timeout=1s plays every short-timeout role)
+	memberMode := false
+	if pm, err := members[0].Mutex("/vf18/probe"); err != nil {
+		t.Fatalf("VF-INCONCLUSIVE Mutex(): %v", err)
+	} else if !vfSetTimeout(pm, time.Second) {
+		memberMode = true
+		vf.Class("probe-unavailable:per-object-timeout")
+		vf.Note("the request timeout of a Mutex object could not be located by reflection: short timeouts come from a member created with cluster-request-timeout=1s")
+		members = append(members, bed.vfAddSecondaryTimeout(t, "vf-sec-short", false, "1s"))
 	}
+	// the etcd key suffix (lease id) each member uses under a lock prefix, learnt by observation
+	suffix := make([]string, len(members))
+	for i, mb := range members {
+		name := fmt.Sprintf("/vf18/learn/%d", i)
+		lm, err := mb.Mutex(name)
+		if err != nil {
+			t.Fatalf("VF-INCONCLUSIVE Mutex(): %v", err)
+		}
+		for try := 0; ; try++ {
+			if err = lm.Lock(); err == nil {
+				break
+			}
+			if try == 20 {
+				t.Fatalf("VF-INCONCLUSIVE uncontended Lock() keeps failing: %v", err)
+			}
+		}
+		keys, err := vfLockKeys(raw, name)
+		if err != nil || len(keys) != 1 {
+			t.Fatalf("VF-INCONCLUSIVE cannot learn the lock key of member %d: %v %v", i, keys, err)
+		}
+		suffix[i] = keys[0][strings.LastIndex(keys[0], "/"):]
+		lm.Unlock()
+	}
+	leaseOf := func(i int) string { return strings.TrimPrefix(suffix[i], "/") }
+	// setTO gives a Mutex object its own timeout where that is possible
+	setTO := func(m Mutex, d time.Duration) {
+		if !memberMode {
+			vfSetTimeout(m, d)
+		}
+	}
+	localProbe := true // false once the goroutine-level guard turned out not to be inspectable
 
 	var oddCases []string
 	defer func() {
@@ -198,7 +332,7 @@ func TestVerifC18Mutex(t *testing.T) {
 	}()
 	rapid.Check(t, func(rt *rapid.T) {
 		leakKnown := vf.HasKnown(vfLeakKey)
-		c := vfGenMutexCase(rt, !leakKnown)
+		c := vfGenMutexCase(rt, !leakKnown && !memberMode, memberMode)
 		if leakKnown {
 			vf.Exclude() // deadlines inside the acquire transaction are not generated while the finding is listed
 		}
@@ -234,7 +368,7 @@ func TestVerifC18Mutex(t *testing.T) {
 				rt.Fatalf("VF-INCONCLUSIVE uncontended Lock() did not succeed: done=%v err=%v", r.done, r.err)
 			}
 			atomic.AddInt32(&holders, 1)
-			cm.(*mutex).timeout = time.Duration(c.ProbeTimeoutUs) * time.Microsecond
+			setTO(cm, time.Duration(c.ProbeTimeoutUs)*time.Microsecond)
 			t0 := time.Now()
 			r := vfLockWithin(cm, 60*time.Second)
 			el := time.Since(t0)
@@ -251,7 +385,13 @@ func TestVerifC18Mutex(t *testing.T) {
 				vf.Class("part1-deadline-inside-acquire-txn")
 			}
 			// the failed acquisition must leave nothing behind
-			if !vfLocalFree(cm) {
+			if free, known := vfLocalFree(cm); !known {
+				if localProbe {
+					localProbe = false
+					vf.Note("the goroutine-level guard of a Mutex object is not a sync.Mutex: its state is not inspected; the behavioural oracle decides")
+				}
+				vf.Class("probe-unavailable:local-guard")
+			} else if !free {
 				vf.Violation(rt, "local-lock-held-after-failed-Lock", "Lock() of m%d failed (%v) but its Mutex object stays locked for the member's other goroutines\n%s",
 					c.Contender, r.err, c)
 				return true
@@ -287,8 +427,12 @@ func TestVerifC18Mutex(t *testing.T) {
 				return true
 			}
 			// ... and the contender can acquire now
-			cm.(*mutex).timeout = 30 * time.Second
-			if r := vfLockWithin(cm, 60*time.Second); !r.done || r.err != nil {
+			setTO(cm, 30*time.Second)
+			r = vfLockWithin(cm, 60*time.Second)
+			for try := 0; memberMode && r.done && r.err != nil && vfTimeoutLike(r.err) && try < 10; try++ {
+				r = vfLockWithin(cm, 60*time.Second) // 1s deadlines can expire on a busy machine
+			}
+			if !r.done || r.err != nil {
 				rt.Fatalf("VF-INCONCLUSIVE Lock() of the former contender did not succeed on the free lock: done=%v err=%v", r.done, r.err)
 			}
 			if n := atomic.AddInt32(&holders, 1); n != 1 {
@@ -306,10 +450,13 @@ func TestVerifC18Mutex(t *testing.T) {
 
 		// ------------------------------------------------------------------ part 2
 		mx := map[int]Mutex{}
+		generous := map[int]bool{} // members whose Mutex object keeps the 10 s default
 		for i, mi := range c.Members {
 			m := newMutex(mi)
 			if c.TimeoutMs[i] > 0 {
-				m.(*mutex).timeout = time.Duration(c.TimeoutMs[i]) * time.Millisecond
+				setTO(m, time.Duration(c.TimeoutMs[i])*time.Millisecond)
+			} else {
+				generous[mi] = true
 			}
 			mx[mi] = m
 		}
@@ -358,7 +505,7 @@ func TestVerifC18Mutex(t *testing.T) {
 							mu.Lock()
 							oddErr = err.Error()
 							mu.Unlock()
-						} else if m.(*mutex).timeout >= 5*time.Second {
+						} else if generous[sc.Member] {
 							// even the 10 s deadline expired (or the etcd server itself timed the request
 							// out): the machine is overloaded or something is stuck. It is a failed
 							// acquisition like any other; the scripts are cut short to save time and the
